@@ -139,7 +139,7 @@ def run(tier):
         jobs = []
         for i in range(nprog):
             gname, gfn = GENS[i % len(GENS)]
-            levels = [1] + ([0, 2] if i < other_levels else [])
+            levels = [1] + ([0, 2] if (i < other_levels or gname == "stmts") else [])     # statement programs always at every level
             jobs.append((i, gname, gfn, levels))
 
         def work(job):
